@@ -270,7 +270,7 @@ impl C17 {
         };
         let n = ALPHABET.len() as u64;
         if ctx.flavour == Flavour::Miri {
-            return Families::new(vec![("directed", directed().len() as u64), ("len-1", n), ("len-2", 40), ("len-3", 40), ("cuts", 4), ("random", 40), ("valgrind-prompt", 0)]);
+            return Families::new(vec![("directed", directed().len() as u64), ("len-1", n), ("len-2", 40), ("len-3", 40), ("cuts", 4), ("random", 40), ("valgrind-prompt", 0), ("prompt-binary", 0)]);
         }
         let (l3, cuts) = match (ctx.flavour, ctx.tier) {
             (Flavour::Rel, Tier::Quick) => (n * n * n, 600),
@@ -278,7 +278,8 @@ impl C17 {
             _ => (200, 50),
         };
         let vg = if ctx.flavour == Flavour::Rel { directed().len() as u64 + ctx.tier.pick(0, 200) } else { 0 };
-        Families::new(vec![("directed", directed().len() as u64), ("len-1", n), ("len-2", n * n), ("len-3", l3), ("cuts", cuts), ("random", rnd), ("valgrind-prompt", vg)])
+        let pb = if ctx.flavour == Flavour::Rel { directed().len() as u64 + n + n * n + ctx.tier.pick(400, 20_000) } else { 0 };
+        Families::new(vec![("directed", directed().len() as u64), ("len-1", n), ("len-2", n * n), ("len-3", l3), ("cuts", cuts), ("random", rnd), ("valgrind-prompt", vg), ("prompt-binary", pb)])
     }
 
     fn alphabet_session(i: u64, len: usize) -> Vec<Line> {
@@ -328,9 +329,152 @@ impl C17 {
                     random_session(&mut r).into_iter().map(|l| Line { text: l.text, budget: None }).collect()
                 }
             }
+            "prompt-binary" => {
+                let d = directed();
+                let dl = d.len() as u64;
+                if i < dl {
+                    d[i as usize].1.iter().map(|t| Line { text: t.to_string(), budget: None }).collect()
+                } else if i < dl + n {
+                    Self::alphabet_session(i - dl, 1)
+                } else if i < dl + n + n * n {
+                    Self::alphabet_session(i - dl - n, 2)
+                } else {
+                    random_session(&mut r).into_iter().map(|l| Line { text: l.text, budget: None }).collect()
+                }
+            }
             _ => random_session(&mut r),
         };
         (name, s)
+    }
+}
+
+/// what the prompt prints for a result (Display of the value); None: not modelled (cycles, non-finite floats)
+fn display_val(v: &Val, out: &mut String) -> Option<()> {
+    match v {
+        Val::Null => {}
+        Val::Bool(b) => out.push_str(if *b { "ja" } else { "nee" }),
+        Val::Int(i) => out.push_str(&i.to_string()),
+        Val::Float(f) => {
+            if !f.is_finite() {
+                return None;
+            }
+            out.push_str(&format!("{}", f));
+        }
+        Val::Str(s) => out.push_str(s),
+        Val::Func => out.push_str("functie"),
+        Val::Array(xs) => {
+            out.push('[');
+            for (i, x) in xs.iter().enumerate() {
+                if i > 0 {
+                    out.push_str(", ");
+                }
+                display_val(x, out)?;
+            }
+            out.push(']');
+        }
+        Val::Cycle(_) | Val::TooDeep => return None,
+    }
+    Some(())
+}
+
+impl C17 {
+    /// The session typed into the interactive prompt of the shipped (hook-free) binary: what it prints after every
+    /// prompt and the errors it reports must be exactly what the retained Compiler + VM pair of this harness — the
+    /// thing every other family judges — yields line by line. (The prompt is the user-facing form of this property;
+    /// a defect in src/bin/nederlang.rs itself is visible only here.)
+    fn prompt_binary(&self, lines: &[Line], st: &mut Stats) {
+        let bin_s = format!("{}/harness/target-repo/release/nederlang", crate::sup::root());
+        if !std::path::Path::new(&bin_s).exists() {
+            st.inconclusive(format!("{} not built", bin_s));
+            return;
+        }
+        // the prompt reads line by line; endless loops have no budget there
+        if lines.iter().any(|l| l.text.contains("zolang ja") || l.text.contains('\r')) {
+            st.count("prompt-binary:skipped-endless-loop");
+            return;
+        }
+        let lines: Vec<Line> = lines.iter().map(|l| Line { text: l.text.replace('\n', " "), budget: None }).collect();
+        if lines.iter().any(|l| l.text.trim().is_empty()) {
+            return;
+        }
+        let (obs_lines, events) = run_session_real(&lines, ShadowMode::Off, false);
+        if obs_lines.len() != lines.len() || !events.is_empty() || obs_lines.iter().any(|o| !matches!(o.outcome, Outcome::Value(_) | Outcome::Error(..))) {
+            // judged by the other families
+            st.count("prompt-binary:skipped-in-process-anomaly");
+            return;
+        }
+        // expected transcript
+        let mut want_out = String::new();
+        let mut want_err: Vec<String> = vec![];
+        for o in &obs_lines {
+            want_out.push_str(">>> ");
+            for l in &o.output {
+                want_out.push_str(l);
+                want_out.push('\n');
+            }
+            match &o.outcome {
+                Outcome::Value(v) => {
+                    if !matches!(v, Val::Null) {
+                        let mut s = String::new();
+                        if display_val(v, &mut s).is_none() {
+                            st.count("prompt-binary:skipped-unmodelled-rendering");
+                            return;
+                        }
+                        want_out.push_str(&s);
+                        want_out.push('\n');
+                    }
+                }
+                Outcome::Error(k, _) => want_err.push(k.name().to_string()),
+                _ => unreachable!(),
+            }
+        }
+        want_out.push_str(">>> ");
+        use std::io::Write;
+        let child = std::process::Command::new("bash")
+            .arg("-c")
+            .arg("ulimit -t 20; exec timeout 600 \"$0\"")
+            .arg(&bin_s)
+            .stdin(std::process::Stdio::piped())
+            .stdout(std::process::Stdio::piped())
+            .stderr(std::process::Stdio::piped())
+            .spawn();
+        let mut child = match child {
+            Ok(c) => c,
+            Err(e) => {
+                st.inconclusive(format!("the prompt could not be started: {}", e));
+                return;
+            }
+        };
+        if let Some(mut inp) = child.stdin.take() {
+            for l in &lines {
+                let _ = writeln!(inp, "{}", l.text);
+            }
+        }
+        st.evaluations += 1;
+        let o = match child.wait_with_output() {
+            Ok(o) => o,
+            Err(_) => return,
+        };
+        st.count("prompt-binary:sessions");
+        st.add("prompt-binary:lines", lines.len() as u64);
+        use std::os::unix::process::ExitStatusExt;
+        if o.status.code() == Some(124) {
+            st.count("case-inconclusive:prompt-watchdog");
+            return;
+        }
+        let got_out = String::from_utf8_lossy(&o.stdout).to_string();
+        let got_err_text = String::from_utf8_lossy(&o.stderr).to_string();
+        if o.status.code() != Some(0) {
+            st.violation("prompt-binary:abnormal-end", format!("the prompt ended with {:?} (signal {:?}); stderr: {}", o.status.code(), o.status.signal(), crate::obs::clip(&got_err_text, 400)), &session_text(&lines));
+            return;
+        }
+        // errors are printed with {:?}: `TypeError("…")` — the kind is the part before the parenthesis
+        let got_err: Vec<String> = got_err_text.lines().filter_map(|l| l.split('(').next()).map(|k| k.trim_end_matches("Error").to_string()).collect();
+        if got_out != want_out {
+            st.violation("prompt-binary:output", format!("the prompt printed\n{}\nexpected (what the retained compiler + VM of the harness yields line by line)\n{}", crate::obs::clip(&got_out, 600), crate::obs::clip(&want_out, 600)), &session_text(&lines));
+        } else if got_err != want_err {
+            st.violation("prompt-binary:errors", format!("the prompt reported {:?}, expected {:?}", got_err, want_err), &session_text(&lines));
+        }
     }
 }
 
@@ -706,6 +850,10 @@ impl Check for C17 {
             let (_, _, i) = self.fams(ctx).locate(idx);
             let name = directed()[i as usize].0;
             self.judge(&lines, &format!("directed:{}", name), ctx, st);
+            return;
+        }
+        if fam == "prompt-binary" {
+            self.prompt_binary(&lines, st);
             return;
         }
         if fam == "valgrind-prompt" {
